@@ -83,14 +83,18 @@ def real_backward(P: Program, dtype, tensors, inputs, agg, chunk, retain, pre, r
     return err, grads_of(ts, report), ts
 
 
-def real_mtl(P: Program, dtype, losses, features, tasks, shared, agg, chunk, retain, pre, report, ts=None):
+def real_mtl(P: Program, dtype, losses, features, tasks, shared, agg, chunk, retain, pre, report, ts=None,
+             as_generators=False):
+    """as_generators: pass the parameter collections as one-shot iterables (like `module.parameters()`),
+    which the signature `Iterable[Tensor]` allows"""
     ts = ts if ts is not None else P.build(dtype)
     set_pre(P, ts, pre, dtype)
     err = None
+    wrap = (lambda xs: (x for x in xs)) if as_generators else (lambda xs: xs)
     try:
         mtl_backward([ts[i] for i in losses], [ts[i] for i in features], make_agg(agg, dtype),
-                     tasks_params=None if tasks is None else [[ts[i] for i in tp] for tp in tasks],
-                     shared_params=None if shared is None else [ts[i] for i in shared],
+                     tasks_params=None if tasks is None else [wrap([ts[i] for i in tp]) for tp in tasks],
+                     shared_params=None if shared is None else wrap([ts[i] for i in shared]),
                      retain_graph=retain, parallel_chunk_size=chunk)
     except Exception as e:  # noqa: BLE001
         err = classify_exc(e)
